@@ -16,12 +16,15 @@ var end = []string{"end"}
 var properties = map[string][]harnessSpec{
 	"C13": {
 		{Name: "op.VerifC13Scale", Marks: []string{"end", "supported", "rejected", "relative-supported"}},
+		{Name: "op.VerifC13TwoScales", Marks: end},
+		{Name: "op.VerifC13Listing", Marks: end},
 		{Name: "op.VerifC13ParseKey", Quick: map[string]int{"C13.maxLen": 3}, Thorough: map[string]int{"C13.maxLen": 4}, Marks: []string{"end", "parse-error", "no-scale"}},
 	},
 	"C14": {
 		{Name: "op.VerifC14Step", Marks: end},
 		{Name: "op.VerifC14RingAt", Marks: end, TimeoutS: 60},
 		{Name: "op.VerifC14Chain", Quick: map[string]int{"C14.maxLen": 2}, Thorough: map[string]int{"C14.maxLen": 4}, Marks: end},
+		{Name: "cmd.VerifC14ConvCmd", Marks: end},
 		{Name: "op.VerifC14Laws", Marks: end},
 	},
 	"C15": {
@@ -63,6 +66,7 @@ var properties = map[string][]harnessSpec{
 	},
 	"C03": {
 		{Name: "astconv.VerifC03Syllable", Quick: map[string]int{"C03.bass": 1}, Thorough: map[string]int{"C03.bass": 1}, Marks: []string{"end", "end-with-bass", "rejected"}},
+		{Name: "cmd.VerifC03KeyFlag", Marks: end},
 		{Name: "astconv.VerifC03History", Marks: []string{"end", "rejected"}},
 		// "every supported key" includes the key in force after a {key=…} change, on a chord or a rest
 		{Name: "astconv.VerifC05KeyChange", Marks: []string{"end", "carrier-rejected"}},
@@ -112,6 +116,7 @@ var properties = map[string][]harnessSpec{
 		{Name: "input/ast.VerifC11TriviaBetween", Quick: map[string]int{"C11.between": 3}, Thorough: map[string]int{"C11.between": 4}, Marks: []string{"end", "skipped"}, MustTerminate: true},
 		{Name: "input/ast.VerifC11MetaSpaces", Quick: map[string]int{"C11.metaLen": 2}, Thorough: map[string]int{"C11.metaLen": 3}, Marks: end},
 		{Name: "cmd.VerifC11DescribeAccidental", Marks: end},
+		{Name: "cmd.VerifC11LongUnicode", Quick: map[string]int{"C11.longChords": 600}, Thorough: map[string]int{"C11.longChords": 1200}, Marks: end},
 		{Name: "input/ast.VerifC11Underscore", Quick: map[string]int{"C11.symbol": 3}, Thorough: map[string]int{"C11.symbol": 4}, Marks: []string{"end", "not-a-plain-symbol"}, MustTerminate: true},
 		{Name: "astconv.VerifC11LeadingZeros", Quick: map[string]int{"C11.digits": 2}, Thorough: map[string]int{"C11.digits": 4}, Marks: []string{"end", "converted"}},
 		{Name: "astconv.VerifC11Accidental", Marks: []string{"end", "honoured", "not-an-accidental"}},
